@@ -38,6 +38,9 @@ class C03(Prop):
         spec["prop"] = "C03"
         spec["tier"] = tier
         spec["victim"] = spec["conns"][R.below(len(spec["conns"]))]["id"]
+        if R.chance(45):
+            from .base import random_cli
+            spec["cli"] = random_cli(R.fork("cli"), spec["conns"], allow=("a", "m", "g", "c"))
         spec["fseed"] = R.bits(40)
         return spec
 
@@ -58,11 +61,20 @@ class C03(Prop):
             step = R.sample(lst, k)
             return sorted(step)
 
-        for i in pick(vidx, 5):
+        # stratified: the first packet of every flight of the victim (direction change) is always dropped once, and
+        # the capture is always started / stopped once right behind the victim's first packet and first flight
+        firsts = []
+        prev = None
+        for i in vidx:
+            if tl[i]["d"] != prev:
+                firsts.append(i)
+            prev = tl[i]["d"]
+        firsts = firsts[:6]
+        for i in sorted(set(pick(vidx, 5) + firsts)):
             faults.append(("drop", {"k": "drop", "i": i}))
-        for i in pick(list(range(0, n + 1)), 3):
+        for i in sorted(set(pick(list(range(0, n + 1)), 3) + [x + 1 for x in firsts[:2]])):
             faults.append(("cut", {"k": "cut", "i": i}))
-        for i in pick(list(range(0, n + 1)), 4):
+        for i in sorted(set(pick(list(range(0, n + 1)), 4) + [x + 1 for x in firsts[:3]])):
             faults.append(("late", {"k": "late", "i": i}))
         for i in pick(vidx, 6):
             e = tl[i]
@@ -117,6 +129,7 @@ class C03(Prop):
             faults.append(("unknown_suite", {"unknown_suite": R.choice([0x5A5A, 0x0000, 0x0001, 0xC03C, 0xFFFF, 0x1306])}))
         faults.append(("foreign", {"foreign": "http", "seed": R.bits(30)}))
         faults.append(("foreign", {"foreign": "udp", "seed": R.bits(30)}))
+        faults.append(("foreign", {"foreign": "udp_vneg", "seed": R.bits(30)}))
         if full or R.chance(50):
             faults.append(("foreign", {"foreign": "udp", "seed": R.bits(30)}))
         # pairs of faults (thorough: 40 sampled pairs; quick: 2), e.g. a lost packet AND a missing key line
@@ -155,6 +168,16 @@ class C03(Prop):
             k = max(c["id"] for c in s2["conns"]) + 1
             if f["foreign"] == "http":
                 s2["conns"].append(gen.gen_http_conn(R, k, used, port=443, v6=R.chance(30)))
+            elif f["foreign"] == "udp_vneg":
+                # datagrams that look like QUIC Version Negotiation / unknown versions (arbitrary UDP payloads)
+                c = gen.gen_udp_noise(R, k, used, v6=R.chance(30), port=R.choice([443, 8443, R.range(1024, 65535)]))
+                dg = []
+                for j in range(R.range(1, 3)):
+                    b = bytes([0x80 | R.below(128)]) + R.choice([b"\x00\x00\x00\x00", b"\xfa\xce\xb0\x0c", b"\x00\x00\x00\x02"]) + \
+                        bytes([8]) + R.bytes(8) + bytes([R.choice([0, 8])]) + R.bytes(8) + b"\x00\x00\x00\x01" * R.range(0, 3)
+                    dg.append([R.choice("cs") if j else "c", b.hex()])
+                c["dgrams"] = dg
+                s2["conns"].append(c)
             else:
                 s2["conns"].append(gen.gen_udp_noise(R, k, used, v6=R.chance(30)))
         return s2
@@ -220,6 +243,11 @@ class C03(Prop):
                     out.violate("bystander-unchanged", "bystander-%s-changed" % bc["proto"],
                                 "%s: bystander conn %d exports %d packets, fault-free %d; %s" % (
                                     tag, cid, len(self.flow_packets(fl, cid)), len(pk), describe_conn(bc)), focus=[kind, f])
+            meta_on = bool(spec.get("cli", {}).get("a"))
+            if meta_on:
+                # with -a handshake material is exported on purpose: the content oracles below are defined for the
+                # plain export only; failure and bystander identity are still judged
+                continue
             for key in fl.extra:
                 out.violate("foreign-flows-export-nothing", "foreign-flow-exported", "%s: output flow %s" % (tag, key[2]), focus=[kind, f])
             for c in ex["truth"]["conns"]:
